@@ -1,5 +1,8 @@
 import DimodProofs.CqmLiftMore
 import DimodProofs.CqmHistory
+import DimodProofs.CqmHistory2
+import DimodProofs.CqmHistory3
+import DimodProofs.CqmHistory4
 
 /-! # C05 — a CQM keeps every expression attached to the right variables
 
@@ -644,6 +647,187 @@ example :
     ∧ ((demo.run (ops.take 2)).step (ops.getD 2 .deepcopy)).2 = none
     ∧ ((demo.run (ops.take 3)).step (ops.getD 3 .deepcopy)).2 = none
     ∧ (demo.run ops).labels = [.str "i", .str "y"] := by
+  decide +kernel
+
+/-! ## round 7: the history fold over the builders, discrete forms, soft constraints, removal, bounds, relabelled constraints -/
+
+/-- **History-level refinement, extended.**  `specStepAll` is the specification's step on the list of label-keyed polynomials
+    for 29 of the 30 `Cqm.Op` constructors (and the SPIN branch of the 30th, `flip_variable`): everything `specStep` covers (now with SOFT `add_constraint` from an iterable too),
+    plus `add_variable` (given or generated label, stored bounds), `set_objective(model)`, `add_constraint(model | comparison)` hard and soft, copied or moved (`copy=` does not
+    appear in the specification: the two paths denote the same polynomial), the three `add_discrete` forms (the constraint is
+    the one-hot equality of the listed variables, marked), `remove_variable`, `spin_to_binary`, `set_lower_bound` /
+    `set_upper_bound`, `change_vartype` (`LCqm.changeVartype`: the five accepted type changes as coded, each a substitution and / or
+    a change of the variable's info), `flip_variable` of a SPIN variable, `relabel_constraints` and `deepcopy`.  From ANY reachable state (`pre` arbitrary), along ANY list of such
+    operations whose calls all return normally, with model arguments well formed and free of BINARY/SPIN self-loops (true of
+    every BQM / QM), the abstraction of the model's state is the fold of the specification.
+    Gap (hence `_partial`): the BINARY branch of `flip_variable` (it clears the mark of the discrete constraints containing the
+    variable, decided by the index-level `is_discrete` — `is_linear` = no STORED interaction — which is not a function of the
+    label-keyed polynomials) and `relabel_variables` (per-field statement `relabel_refines`) keep their per-step statements
+    and may be interleaved through `pre`. -/
+theorem history_refines_builders_partial (pre ops : List Cqm.Op) (hpre : ∀ op ∈ pre, OpOK op) (hops : ∀ op ∈ ops, OpOK2 op)
+    (hsucc : Succeeds (({} : Cqm).run pre) ops) (s' : LCqm)
+    (hspec : specRunAll (absCqm (({} : Cqm).run pre)) ops = some s') :
+    absCqm (({} : Cqm).run (pre ++ ops)) = s' := by
+  have hinv : RefInv (({} : Cqm).run pre) :=
+    ⟨history_inv pre hpre, history_labels pre, history_keysym pre hpre, history_sorted pre hpre⟩
+  have : ({} : Cqm).run (pre ++ ops) = (({} : Cqm).run pre).run ops := by
+    unfold Cqm.run; rw [List.foldl_append]
+  rw [this]
+  exact specRunAll_refines ops hinv hops hsucc s' hspec
+
+/-- **The private variable order of a moved expression is label-level too.**  `add_constraint(model, copy=False)` moves the
+    model's storage into the CQM; the constraint it becomes has, as its PRIVATE variable order, the model's own variable order
+    (`lhs.variables == model.variables`), the model's polynomial, and the requested sense / rhs / weight / penalty — exactly
+    what `copy=True` gives: the two paths are indistinguishable on the list of label-keyed polynomials, private orders
+    included, and every earlier constraint and the objective are untouched. -/
+theorem moved_expression_private_order (m m1 m2 : Cqm) (h : RefInv m) (mi : Cqm.ModelIn) (hmi : ModelInOK mi) (hself : ModelNoSelf mi)
+    (sense : Sense) (rhs : Rat) (label : Label) (weight : Option Rat) (pen : Nat)
+    (hmove : m.step (.addConstraintModel mi sense rhs label false weight pen) = (m1, none))
+    (hcopy : m.step (.addConstraintModel mi sense rhs label true weight pen) = (m2, none)) :
+    absCqm m1 = absCqm m2
+    ∧ (∃ c, (absCqm m1).cons = ((absCqm m).addMissing mi).cons ++ [(label, c)]
+        ∧ c.p = LPoly.ofModel mi ∧ c.p.vars = mi.vars ∧ c.sense = sense ∧ c.rhs = rhs ∧ c.weight = weight)
+    ∧ (absCqm m1).obj = ((absCqm m).addMissing mi).obj := by
+  have e1 := (refines_addConstraintModel h.wf h.lab hmi hself sense rhs label false weight pen hmove).2.2.2
+  have e2 := (refines_addConstraintModel h.wf h.lab hmi hself sense rhs label true weight pen hcopy).2.2.2
+  refine ⟨by rw [e1, e2], ⟨_, by rw [e1], rfl, rfl, rfl, rfl, rfl⟩, by rw [e1]⟩
+
+/-- one step of it; and `specStepAll` agrees with `specStep` wherever that is defined on a hard constraint / non-builder -/
+theorem step_refines_spec_all (m : Cqm) (h : RefInv m) (op : Cqm.Op) (hop : OpOK2 op) (s' : LCqm)
+    (hs : specStepAll (absCqm m) op = some s') (hok : (m.step op).2 = none) :
+    absCqm (m.step op).1 = s' ∧ RefInv (m.step op).1 :=
+  ⟨specStepAll_refines h op hop s' hs hok, refInv_step h op hop.ok⟩
+
+/-- not vacuous: on `demo`, a continuation through a model-built soft constraint, a discrete constraint over a new and an
+    existing variable, a bound, a relabelled constraint, `spin_to_binary`, a removed variable and a deep copy lies in the
+    extended fold, every call returns, and every argument meets `OpOK2` -/
+example :
+    let mi : Cqm.ModelIn := { vars := [.str "y", .str "s"], info := [(.binary, 0, 1), (.spin, -1, 1)], lin := [1, -2], quad := [(1, 0, 3)], off := 1 }
+    let ops : List Cqm.Op := [.addVariable .integer none none (some 7), .addConstraintModel mi .ge 0 (.str "m") false (some 2) 0,
+                              .addDiscreteVars [.str "y", .str "z"] (.str "d") true,
+                              .setUpperBound (.str "i") 4, .changeVartype .binary (.str "s"), .changeVartype .spin (.str "s"),
+                              .flipVariable (.str "s"), .relabelConstraints [(.str "c", .str "c'")], .spinToBinary,
+                              .addConstraintTerms [⟨[.str "i"], 1⟩] .le 2 (.str "soft") (some 3) 0,
+                              .removeVariable (.str "s"), .deepcopy]
+    (specRunAll (absCqm demo) ops).isSome = true
+    ∧ (∀ k, k < ops.length → ((demo.run (ops.take k)).step (ops.getD k .deepcopy)).2 = none)
+    ∧ (demo.run ops).labels = [.str "x", .str "i", .str "y", .int 3, .str "z"]
+    ∧ (demo.run ops).clabels = [.str "c'", .str "m", .str "d", .str "soft"] := by
+  decide +kernel
+
+/-- **`relabel_variables(mapping)` is ONE function of the list of polynomials** (`LCqm.relabelVariables`): variable labels,
+    the type / bounds table, the private order and every coefficient of the objective and of every constraint are carried to
+    the new labels (swaps and cycles included); labels outside the image carry nothing; constraint labels and attributes are
+    untouched.  (`relabel_refines` is the per-field form.) -/
+theorem relabel_variables_refines (m m' : Cqm) (h : RefInv m) (mp : List (Label × Label))
+    (hstep : m.step (.relabelVariables mp) = (m', none)) : absCqm m' = (absCqm m).relabelVariables mp :=
+  refines_relabelVariablesF h mp hstep
+
+/-- **The history theorem over every `Cqm.Op`.**  `specStepFull` is a specification step on the list of label-keyed
+    polynomials for ALL 30 `Cqm.Op` constructors — `specStepAll` plus `relabel_variables` — with one branch left out:
+    `flip_variable` of a BINARY variable.  From any reachable state, along any list of operations whose calls all return
+    (model arguments well formed, no BINARY/SPIN self-loops), the abstraction of the CQM's state — variables with types and
+    bounds, objective, every constraint with its private order, terms, sense, rhs, weight, penalty and mark — is the fold of that
+    one function: "exactly … what the same sequence produces on a plain list of polynomials".
+    Gap (hence `_partial`): `flip_variable(v)` with `v` BINARY also clears the discrete mark of the constraints that are
+    discrete and contain `v`; `is_discrete` = marked ∧ one-hot needs `is_linear` (no STORED interaction, a zero-bias one
+    included), which the coefficient functions of a label-keyed polynomial cannot express; its polynomial part is
+    `refines_flipVariable`.  `fix_variables(inplace=False)` is not a mutation of the model (`fix_copy_is_fix_inplace`). -/
+theorem history_refines_every_op_partial (pre ops : List Cqm.Op) (hpre : ∀ op ∈ pre, OpOK op) (hops : ∀ op ∈ ops, OpOK2 op)
+    (hsucc : Succeeds (({} : Cqm).run pre) ops) (s' : LCqm)
+    (hspec : specRunFull (absCqm (({} : Cqm).run pre)) ops = some s') :
+    absCqm (({} : Cqm).run (pre ++ ops)) = s' := by
+  have hinv : RefInv (({} : Cqm).run pre) :=
+    ⟨history_inv pre hpre, history_labels pre, history_keysym pre hpre, history_sorted pre hpre⟩
+  have : ({} : Cqm).run (pre ++ ops) = (({} : Cqm).run pre).run ops := by
+    unfold Cqm.run; rw [List.foldl_append]
+  rw [this]
+  exact specRunFull_refines ops hinv hops hsucc s' hspec
+
+/-- the only operations outside `specStepFull` are flips of a non-SPIN variable: for every other operation the specification
+    step is defined whenever the call can succeed at all on the arguments' shape (bounds need the variable to exist) -/
+theorem specStepFull_defined (s : LCqm) (op : Cqm.Op) :
+    (specStepFull s op).isSome = true
+    ∨ (∃ v, op = .flipVariable v ∧ s.vtOf v ≠ .spin)
+    ∨ (∃ vt v, op = .changeVartype vt v ∧ s.changeVartype vt v = none)
+    ∨ (∃ v x, (op = .setLowerBound v x ∨ op = .setUpperBound v x) ∧ s.info v = none) := by
+  cases op with
+  | flipVariable v =>
+    by_cases h : s.vtOf v = .spin
+    · left; simp [specStepFull, specStepAll, LCqm.flipSpin, h]
+    · right; left; exact ⟨v, rfl, h⟩
+  | changeVartype vt v =>
+    cases h : s.changeVartype vt v with
+    | some x => left; simp [specStepFull, specStepAll, h]
+    | none => right; right; left; exact ⟨vt, v, rfl, h⟩
+  | setLowerBound v x =>
+    cases h : s.info v with
+    | some i => left; simp [specStepFull, specStepAll, h]
+    | none => right; right; right; exact ⟨v, x, Or.inl rfl, h⟩
+  | setUpperBound v x =>
+    cases h : s.info v with
+    | some i => left; simp [specStepFull, specStepAll, h]
+    | none => right; right; right; exact ⟨v, x, Or.inr rfl, h⟩
+  | removeConstraint label cascade => left; cases cascade <;> simp [specStepFull, specStepAll, specStep]
+  | _ => left; simp [specStepFull, specStepAll, specStep]
+
+/-- not vacuous: a swap and a 3-cycle of variable labels inside a longer continuation on `demo` -/
+example :
+    let ops : List Cqm.Op := [.relabelVariables [(.str "x", .str "y"), (.str "y", .str "x")],
+                              .viewAddLinear (some (.str "c")) (.str "y") 2,
+                              .relabelVariables [(.str "x", .str "i"), (.str "i", .str "y"), (.str "y", .str "x")],
+                              .changeVartype .spin (.str "i"), .flipVariable (.str "i"), .removeVariable (.str "x")]
+    (specRunFull (absCqm demo) ops).isSome = true
+    ∧ (∀ k, k < ops.length → ((demo.run (ops.take k)).step (ops.getD k .deepcopy)).2 = none)
+    ∧ (demo.run ops).labels = [.str "y", .str "i"] := by
+  decide +kernel
+
+/-- **The history theorem, every operation, no side condition on the specification.**  `specRel` is the specification's step
+    as a relation on lists of label-keyed polynomials: for every operation but `flip_variable` it is the FUNCTION
+    `specStepFull` (`specRel s op s' ↔ specStepFull s op = some s'`, by definition); for `flip_variable(v)` it is `s ↦ −s` in
+    every expression (SPIN) or `x ↦ 1 − x` in every expression followed by clearing the discrete mark of some constraints that
+    had it (BINARY — which ones is `is_discrete`, an observation of the stored interactions) and nothing else.
+    From ANY reachable state, along ANY list of public operations whose calls return normally (model arguments well formed,
+    without BINARY/SPIN self-loops — true of every BQM / QM), the abstraction of the CQM after the history is reached from the
+    abstraction before it by a run of that specification: variables with their own types and bounds, the objective and every
+    constraint with exactly the terms, private order, sense, right-hand side, weight, penalty type and (up to the flip clause)
+    mark that the same sequence produces on a plain list of polynomials. -/
+theorem history_refines_every_op (pre ops : List Cqm.Op) (hpre : ∀ op ∈ pre, OpOK op) (hops : ∀ op ∈ ops, OpOK2 op)
+    (hsucc : Succeeds (({} : Cqm).run pre) ops) :
+    RelRun (absCqm (({} : Cqm).run pre)) ops (absCqm (({} : Cqm).run (pre ++ ops))) := by
+  have hinv : RefInv (({} : Cqm).run pre) :=
+    ⟨history_inv pre hpre, history_labels pre, history_keysym pre hpre, history_sorted pre hpre⟩
+  have : ({} : Cqm).run (pre ++ ops) = (({} : Cqm).run pre).run ops := by
+    unfold Cqm.run; rw [List.foldl_append]
+  rw [this]
+  exact relRun_refines ops hinv hops hsucc
+
+/-- the flip clause changes no term: clearing marks keeps labels, types, bounds, the objective, the number and labels of the
+    constraints and, constraint by constraint, the polynomial, sense, rhs, weight and penalty type; a mark is only ever cleared,
+    never set -/
+theorem clearsSomeMarks_keeps_terms (s s' : LCqm) (h : s.ClearsSomeMarks s') :
+    s'.labels = s.labels ∧ s'.info = s.info ∧ s'.obj = s.obj ∧ s'.cons.length = s.cons.length
+    ∧ ∀ k (hk : k < s.cons.length) (hk' : k < s'.cons.length),
+        (s'.cons[k]).1 = (s.cons[k]).1 ∧ (s'.cons[k]).2.p = (s.cons[k]).2.p ∧ (s'.cons[k]).2.sense = (s.cons[k]).2.sense
+        ∧ (s'.cons[k]).2.rhs = (s.cons[k]).2.rhs ∧ (s'.cons[k]).2.weight = (s.cons[k]).2.weight
+        ∧ (s'.cons[k]).2.quadPenalty = (s.cons[k]).2.quadPenalty
+        ∧ ((s'.cons[k]).2.discrete = true → (s.cons[k]).2.discrete = true) := by
+  obtain ⟨h1, h2, h3, h4⟩ := h
+  refine ⟨h1, h2, h3, h4.length_eq.symm, fun k hk hk' => ?_⟩
+  have := List.forall₂_iff_get.mp h4
+  obtain ⟨hl, hr⟩ := this.2 k hk hk'
+  simp only [List.get_eq_getElem] at hl hr
+  rcases hr with hr | ⟨hd, hr⟩
+  · rw [hl, hr]; exact ⟨rfl, rfl, rfl, rfl, rfl, rfl, id⟩
+  · rw [hl, hr]; exact ⟨rfl, rfl, rfl, rfl, rfl, rfl, fun hf => by simp at hf⟩
+
+/-- not vacuous: a history through a BINARY flip of a variable of a discrete constraint -/
+example :
+    let ops : List Cqm.Op := [.addDiscreteVars [.str "x", .str "y"] (.str "d") true, .flipVariable (.str "x"),
+                              .relabelVariables [(.str "x", .str "y"), (.str "y", .str "x")], .flipVariable (.str "y")]
+    (∀ k, k < ops.length → ((demo.run (ops.take k)).step (ops.getD k .deepcopy)).2 = none)
+    ∧ ((demo.run (ops.take 1)).cons.map (·.discrete)) = [false, true]
+    ∧ ((demo.run ops).cons.map (·.discrete)) = [false, false] := by
   decide +kernel
 
 end C05
